@@ -150,7 +150,7 @@ func cmdCheck(args []string) {
 
 	var cts []*Contract
 	for _, ct := range s.CS.List {
-		if (ct.Kind == "func" || ct.Kind == "lemma") && has(ct.Serves, *prop) && !ct.Trusted {
+		if (ct.Kind == "func" || ct.Kind == "lemma") && has(ct.Serves, *prop) && !ct.Trusted && !(ct.Inline && len(ct.Ensures) == 0) {
 			cts = append(cts, ct)
 		}
 	}
